@@ -140,7 +140,8 @@ impl State for FileState {
                 .with_error_context(|error| format!("{FILE_STATE_PARSE_ERROR} index. {error}"))
                 .map_err(|_| IggyError::InvalidNumberEncoding)?;
             total_size += 8;
-            if entries_count > 0 && index != current_index + 1 {
+            // The first entry is always written with index 0, so a file that starts later has lost its head.
+            if (entries_count > 0 && index != current_index + 1) || (entries_count == 0 && index != 0) {
                 error!(
                     "State file is corrupted, expected index: {}, got: {}",
                     current_index + 1,
